@@ -1,2 +1,130 @@
-import OVM.Kernel.Delete
-def main : IO Unit := IO.println "judge stub"
+import Judge.Oracles
+import Judge.Lookups
+import Std.Data.HashMap
+import Std.Data.HashSet
+/-
+  ovmjudge: reads kernel_drv trace files and prints one line per finding.
+    XFAIL  trace=<t> step=<k> op=<op> field=<f> model=<..> impl=<..>
+    ORACLE trace=<t> step=<k> op=<op> prop=<Cxx> witness=<..>
+    DRIFT  trace=<t> step=<k> op=<op> field=<f>
+    CRASH  trace=<t> step=<k> op=<op> why=<..>
+    TRACE  <t> steps=<n>      STAT <key> <value>
+-/
+open OVM OVM.Kernel Judge
+
+def kindOfHeader (h : String) : String :=
+  match (toks h).find? (·.startsWith "kind=") with
+  | some s => (s.drop 5).toString
+  | none => "poly"
+
+def traceNo (h : String) : String :=
+  match (toks h).find? (·.startsWith "trace=") with
+  | some s => (s.drop 6).toString
+  | none => "?"
+
+/-- model transition for ops that are not kernel ops (property bookkeeping of the driver) -/
+def auxStep (pre : Kernel) (s : Step) : Option Kernel :=
+  match s.op, s.args.map Int.toNat with
+  | "prop_new", [kd, _ty, _d, _fl] =>
+    let dflt := (s.args.getD 2 0)
+    let n := match kd with | 0 => pre.nV | 1 => pre.nE | 2 => pre.nHE | 3 => pre.nF | 4 => pre.nHF | 5 => pre.nC | _ => 1
+    let col : Col := { key := s.res, dflt := dflt, vals := List.replicate n dflt }
+    let p := pre.props
+    some { pre with props := match kd with
+      | 0 => { p with v := p.v ++ [col] } | 1 => { p with e := p.e ++ [col] } | 2 => { p with he := p.he ++ [col] }
+      | 3 => { p with f := p.f ++ [col] } | 4 => { p with hf := p.hf ++ [col] } | 5 => { p with c := p.c ++ [col] }
+      | _ => { p with m := p.m ++ [col] } }
+  | "prop_drop", _ =>
+    let rm := fun (cs : List Col) => cs.filter (·.key != s.res)
+    let p := pre.props
+    some { pre with props := { v := rm p.v, e := rm p.e, he := rm p.he, f := rm p.f, hf := rm p.hf, c := rm p.c, m := rm p.m } }
+  | _, _ => none
+
+def judgeStep (kind : String) (pre : Obs) (s : Step) : List Finding := Id.run do
+  let mut out : List Finding := []
+  match s.crashed with
+  | some why => return [Finding.oracle "CRASH" s!"{s.op} {s.args}: {why}"]
+  | none => pure ()
+  -- X: model step on the implementation's previous state
+  match opOfStep s with
+  | some op =>
+    let (m', r) := pre.k.step op
+    out := out ++ cmpKernel m' s.post.k (isSwapOp s.op)
+    match s.res.toInt? with
+    | some ri => if ri != r then out := out ++ [Finding.xfail "return" (toString r) (toString ri)]
+    | none => pure ()
+  | none =>
+    match auxStep pre.k s with
+    | some m' => out := out ++ cmpKernel m' s.post.k true
+    | none =>
+      if s.op == "retoken" then
+        -- only property values may change, and only slots that held the default
+        let strip := fun (k : Kernel) => { k with props := {} }
+        if strip s.post.k != strip pre.k then out := out ++ [Finding.xfail "retoken" "topology unchanged" "topology changed"]
+      else out := out ++ [Finding.xfail "unknown-op" s.op ""]
+  -- oracles on the implementation's own states
+  out := out ++ checkBookkeeping s.post
+  out := out ++ checkPropSizes s.post.k
+  if s.post.k.oneCell then
+    if !s.post.k.cacheInvVB then out := out ++ [Finding.oracle "C01" "outgoing-halfedge cache differs from the brute-force scan"]
+    if !s.post.k.cacheInvEB then out := out ++ [Finding.oracle "C01" "halfedge->halfface cache differs from the brute-force scan"]
+    if !s.post.k.cacheInvFB then out := out ++ [Finding.oracle "C01" "halfface->cell cache differs from the brute-force scan"]
+    for q in s.post.q do
+      out := out ++ checkQuery s.post.k q
+      if q.name.startsWith "l" then out := out ++ checkLookup s.post.k q
+  out := out ++ checkStepOracles kind pre s
+  out := out ++ checkTwin s.post
+  return out
+
+def fmt (t : String) (k : Nat) (op : String) : Finding → String
+  | .xfail f m i => s!"XFAIL trace={t} step={k} op={op} field={f} model={m} impl={i}"
+  | .oracle p w => s!"ORACLE trace={t} step={k} op={op} prop={p} witness={w}"
+  | .drift f => s!"DRIFT trace={t} step={k} op={op} field={f}"
+
+def stateKey (k : Kernel) : UInt64 :=
+  hash (k.nV, k.edges, k.faces, k.cells, k.vDel, k.eDel, k.fDel, k.cDel, k.deferred, k.fast, k.vBU, k.eBU, k.fBU)
+
+def main (args : List String) : IO UInt32 := do
+  let mut nSteps := 0
+  let mut nTraces := 0
+  let mut nFind := 0
+  let mut states : Std.HashSet UInt64 := {}
+  let mut nontriv : Std.HashSet UInt64 := {}
+  let mut ops : Std.HashMap String Nat := {}
+  let mut modes : Std.HashMap String Nat := {}
+  let mut nQueries := 0
+  for path in args do
+    let lines ← IO.FS.lines path
+    let traces := parseFile lines
+    for tr in traces do
+      nTraces := nTraces + 1
+      let t := traceNo tr.header
+      let kind := kindOfHeader tr.header
+      let mut pre := tr.init
+      let mut idx := 0
+      for s in tr.steps do
+        let fs := judgeStep kind pre s
+        for f in fs do
+          IO.println (fmt t idx s.op f)
+          match f with | .drift _ => pure () | _ => nFind := nFind + 1
+        nSteps := nSteps + 1
+        nQueries := nQueries + s.post.q.size
+        ops := ops.insert s.op (ops.getD s.op 0 + 1)
+        let k := s.post.k
+        let mk := s!"{k.deferred},{k.fast},{k.vBU},{k.eBU},{k.fBU}"
+        modes := modes.insert mk (modes.getD mk 0 + 1)
+        let h := stateKey k
+        states := states.insert h
+        if k.nC ≥ 1 || k.needsGC then nontriv := nontriv.insert h
+        pre := s.post
+        idx := idx + 1
+      IO.println s!"TRACE {t} steps={tr.steps.size} crash={tr.crash.isSome}"
+  IO.println s!"STAT traces {nTraces}"
+  IO.println s!"STAT steps {nSteps}"
+  IO.println s!"STAT findings {nFind}"
+  IO.println s!"STAT queries {nQueries}"
+  IO.println s!"STAT distinct_states {states.size}"
+  IO.println s!"STAT distinct_nontrivial_states {nontriv.size}"
+  for (k, v) in ops.toList do IO.println s!"HIST op {k} {v}"
+  for (k, v) in modes.toList do IO.println s!"HIST mode {k} {v}"
+  return 0
